@@ -172,6 +172,16 @@ let () =
                (hex_of_str k) (show_secret v)) in
          Printf.printf "%s %s%s\n" id
            (String.concat " " (List.map (fun (s, _) -> show_send s) evs @ [show_result r])) ops
+       | "RD" ->
+         (* RD <hexfrom> <hexto> <status> : a redirect follow-up made by net/http *)
+         let a = str_of_hex (next ()) in
+         let c = str_of_hex (next ()) in
+         let st = n_of_int (next_int ()) in
+         let flags = !toks in
+         let noauth = List.mem "noauth" flags and nobody = List.mem "nobody" flags in
+         Printf.printf "%s %s %s\n" id
+           (if noauth then "AUTH-STRIPPED" else if keeps_authorization a c then "AUTH-KEPT" else "AUTH-STRIPPED")
+           (if nobody then "BODY-DROPPED" else if keeps_body st then "BODY-KEPT" else "BODY-DROPPED")
        | "OS" ->
          (* OS nev ev* : the visible events of an Once execution (a<g> f starts, c<g> f ends cancelled,
             d<g>.<v> f ends with a result, r<g>.<v> result received, x<g> gave up), replayed on the slot
